@@ -101,6 +101,8 @@ func MsgBytes(o SOp, ver int64, badSchema bool) []byte {
 	case "doneaserr":
 		return mustEnc(atp.RuntimeMessage{MessageID: atp.MessageTypeError, RunID: o.R,
 			MessageData: atp.WorkDoneMessage{StepID: "s", OutputID: "success", OutputData: fmt.Sprintf("o%d", o.X)}})
+	case "garbage":
+		return []byte{0xff, 0xff, 0xff}
 	case "done1":
 		return mustEnc(atp.WorkDoneMessage{StepID: "s", OutputID: "success", OutputData: fmt.Sprintf("o%d", o.X)})
 	}
